@@ -85,3 +85,16 @@ contract(X + 'Chipset.command', 'C14',
 contract('drivers.c14:crc_step', 'C14', dict(octet=BV(32, 0xFF), reg=BV(32, 0xFFFF)),
          name='C14/sentinel.crc-wrong-poly', expect_fail=True,
          ensures=[('O-crc-step', 'result == crc_update(octet ^ 1, reg)')], raises={})
+
+
+# C13 assumes that Chipset.command() returns the payload of a valid response or raises IOError / Chipset.Error
+# (C13/pn53x.command); that is what is proved above, so it is an obligation of C13 as well: a short or malformed
+# host frame must come out as IOError, never as struct.error / IndexError escaping ContactlessFrontend.exchange()
+import copy as _copy
+from pyvc.contracts import REGISTRY as _REG
+for _c in list(_REG):
+    if _c.name in ('C14/pn53x.command',):
+        _c2 = _copy.copy(_c)
+        _c2.prop = 'C13'
+        _c2.name = 'C13/host.' + _c.name.split('/', 1)[1]
+        _REG.append(_c2)
